@@ -247,7 +247,9 @@ impl Shared {
         // underflow.
         let head = load_kernel_shared(self.submissions_head);
         let tail = load_kernel_shared(self.submissions_tail);
-        tail.saturating_sub(head)
+        // NOTE: the head and tail are free running 32 bit counters, so the
+        // tail can wrap around before the head does.
+        tail.wrapping_sub(head)
     }
 
     fn ring_fd(&self) -> RawFd {
